@@ -20,6 +20,7 @@ def run(F, G, tier, seed):
     CG = CallGraph(F)
     effects.run_prepass(chk, F, CG, fields=("changes", "depends"))
     effects.run_ownlocals(chk, F, CG, fields=("changes", "depends"))
+    effects.run_block_locals(chk, F, CG)
     chk.analysed["write_kinds"] = sorted(kinds)
     return chk.finish(
         "Decides the structural clauses of C11: every listed context is gated (dominance over the checker's "
